@@ -116,6 +116,21 @@ def run(tier, seed, replay=None):
             c["model"] = add_joins(rng, c["model"])
             c = {"id": str(i), "model": c["model"], "ops": [o for o in gen_case2_ops(rng, c["model"])]}
         cases.append(c)
+    # ties: co-located single stops (every gap costs the same) with hard windows (some of the tied gaps are rejected);
+    # BestMove is asked several times per state, each call draws its own tie-breaks
+    nt = 150 if tier == "quick" else 3000
+    for i in range(nt):
+        m = G.gen_model(rng, "small", {"precedence": False, "colocated": True, "windows": True, "capacity": False, "maxdist": False,
+                                       "maxstops": False, "attrs": False, "penalties": False})
+        m["opts"]["f_vehicles_duration"] = 0          # travel duration only: co-located stops tie exactly
+        m["opts"]["f_activation"] = 0
+        maxu = 1
+        ops = []
+        for _ in range(rng.randint(1, 6)):
+            ops.append("op plancr %d %d %d %d" % (rng.randrange(1 << 20), rng.randrange(1 << 20), rng.randrange(1 << 20), rng.randrange(1 << 20)))
+        for u in m["units"]:
+            ops += ["op q_best %d" % u["stops"][0]] * 5
+        cases.append({"id": "t%d" % i, "model": m, "ops": ops})
     corpus = [{"id": c["id"], "model": c["model"], "ops": c["ops"]} for c in FW.load_corpus(PID)]
     for c in corpus:  # JSON turns tuples into lists
         c["model"]["arcs"] = [tuple(a) for a in c["model"]["arcs"]]
